@@ -295,7 +295,7 @@ func setKind(name string) string {
 // explainStale finds which part of the installed state, replaced by what a fresh manager installs, makes the verdict
 // right: hooks, pod chains, policy chains or a set.
 func batchConsequence(sig string) bool {
-	for _, k := range []string{"missing-pod-hook", "stale-pod-hook-of-same-pod", "missing-policy-chain-rule", "stale-pod-chain-body", "stale-policy-chain-rule",
+	for _, k := range []string{"missing-pod-hook", "stale-pod-hook-of-same-pod", "stale-pod-chain-body", "stale-policy-chain-body",
 		"stale-chains-"} {
 		if strings.Contains(sig, k) {
 			return true
@@ -370,19 +370,19 @@ func explainStale(t, f *ruleset, skip map[string]bool, pkt Packet, want bool, di
 				if commentOf(stale[0]) != localOwner {
 					owner = "former-ip-owner"
 				}
-				return "c16-stale-pod-hook-of-" + owner + "-" + effect,
+				return "c16-stale-pod-hook-of-" + owner,
 					fmt.Sprintf("%s still holds %q for %s, which a fresh manager does not install", base, stale[0].String(), ipStr(local))
 			case missing > 0:
-				return "c16-missing-pod-hook-" + effect, base + " lacks the hook of " + ipStr(local)
+				return "c16-missing-pod-hook", base + " lacks the hook of " + ipStr(local)
 			}
-			return "c16-pod-hook-order-" + effect, "same hooks, other order"
+			return "c16-pod-hook-order", "same hooks, other order"
 		case "pod-chains":
-			return "c16-stale-pod-chain-body-" + effect, "the pod chain's rules are not those a fresh manager writes"
+			return "c16-stale-pod-chain-body", "the pod chain's rules are not those a fresh manager writes"
 		case "policy-chains":
 			if want {
-				return "c16-missing-policy-chain-rule-drops", "a policy chain lacks rules a fresh manager writes"
+				return "c16-stale-policy-chain-body", "a policy chain lacks rules a fresh manager writes"
 			}
-			return "c16-stale-policy-chain-rule-admits", "a policy chain holds rules a fresh manager does not write"
+			return "c16-stale-policy-chain-body", "a policy chain holds rules a fresh manager does not write"
 		}
 		n := strings.TrimPrefix(comp, "set:")
 		ts, fs := t.sets[n], f.sets[n]
@@ -446,10 +446,7 @@ func explainStale(t, f *ruleset, skip map[string]bool, pkt Packet, want bool, di
 				}
 			}
 		}
-		sig := fmt.Sprintf("c16-%s-member-of-%s-%s", what, setKind(n), effect)
-		if what == "stale" && setKind(n) == "peer-ip-set" && effect == "admits" {
-			sig = "c16-stale-set-member-admits-former-peer"
-		}
+		sig := fmt.Sprintf("c16-%s-member-of-%s", what, setKind(n))
 		return sig, fmt.Sprintf("set %s: %s member %s compared with a fresh manager's set", n, what, detail)
 	}
 	var setNames []string
